@@ -144,6 +144,24 @@ Inductive must_dirty : node -> Prop :=
 | md_deps n e :
     g_producer g n = Some e -> spec_load e = LdFail -> must_dirty n.
 
+(* dirty before the recorded deps are looked at (then ninja only probes them: LoadDepsTry) *)
+Definition own_dirty (e : edge) : Prop :=
+  (exists i, In i (nonoo_ins e) /\ must_dirty i) \/
+  (ei_phony (g_edge g e) = true /\ ei_ins (g_edge g e) = [] /\ ei_vals (g_edge g e) = [] /\
+   exists o, In o (ei_outs (g_edge g e)) /\ w_mtime w o = 0) \/
+  (ei_phony (g_edge g e) = false /\
+   exists o, In o (ei_outs (g_edge g e)) /\
+             out_reason (fun x => exists i, In i (nonoo_ins e) /\ newer_than x i) e o).
+
+(* no statement that is dirty for its own reason has a usable recorded dep that is generated and
+   has no manifest path (explicit, implicit or order-only) from that statement *)
+Definition deps_safe : Prop :=
+  forall e i e', own_dirty e -> In i (valid_deps e) -> g_producer g i = Some e' ->
+                 In i (ei_ins (g_edge g e)).
+
+(* what a statement needs: its manifest inputs (every kind) and its usable recorded deps *)
+Definition need_ins (e : edge) : list node := ei_ins (g_edge g e) ++ valid_deps e.
+
 (* well-formedness the specification theorem needs (true of every parsed manifest):
    outputs know their producer and vice versa; statements with deps are not phony and their order-only
    counter is within the vector *)
